@@ -73,16 +73,47 @@ def observe(cs):
     return res
 
 
-def gen_text(rng):
-    n = rng.choice([1, 1, 1, 2, 2, 3])
-    return [" ".join(rng.choice(WORDS) for _ in range(rng.randint(1, 4))) for _ in range(n)]
+ATOMS = ["&lt;", "&gt;", "&amp;", "&nbsp;", "&#60;", "&#x3c;", "&amp;lt;", "&amp;amp;", "&lrm;", "&bogus;", "&", "<", ">",
+         '"', "'", "-->", "a --> b", "<i>", "</i>", "<i>x</i>", "<b>", "<u>t</u>", "</p>", "<p>", "<br/>", "<br>", "</span>",
+         "<span>", "<c.x>y</c>", "<v Bob>", "<00:01.000>", "<!--", "]]>", "x<y", "a<b>c", "1 < 2 > 0", "R&D", "42", "50",
+         "25", "23.976", "1", "{1}{2}", "{0}{0}", "{", "}", "|", "a|b", "00:00:01,000 --> 00:00:02,000", "NOTE", "STYLE",
+         "WEBVTT", "</tt>", "<sami>", "é", "中", "\U0001F600", "a\xa0b", ";", "x;>", "a;", "#", "\\", "/", "-", "--",
+         "- hi", "[music]", "100%", "it's"]
+
+
+def norm_line(l):
+    return re.sub(r"\s+", " ", l).strip()
+
+
+def gen_text(rng, no_pipe, counter):
+    """1-3 lines of words and adversarial atoms, with leading / trailing / multiple blanks; every line visible.
+    '|' is MicroDVD's line separator: excluded (counted) exactly when the chain has a MicroDVD hop."""
+    lines = []
+    for _ in range(rng.choice([1, 1, 1, 2, 2, 3])):
+        while True:
+            parts = [rng.choice(ATOMS) if rng.random() < 0.55 else rng.choice(WORDS) for _ in range(rng.randint(1, 4))]
+            l = rng.choice([" ", " ", " ", "  ", ""]).join(parts)
+            if rng.random() < 0.15:
+                l = rng.choice([" ", "  ", "\t"]) + l
+            if rng.random() < 0.15:
+                l = l + rng.choice([" ", "  "])
+            if no_pipe and "|" in l:
+                counter["text_pipe_excluded_for_microdvd"] = counter.get("text_pipe_excluded_for_microdvd", 0) + 1
+                l = l.replace("|", "/")
+            if norm_line(l):
+                break
+        lines.append(l)
+    return lines
 
 
 GRID = [0, 1, 999, 1000, 1001, 39999, 40000, 40001, 999999, 10**6, 8039999, 8040000, 8119999, 8120000, 59999999,
         60 * 10**6, 3599999999, 3600 * 10**6, 36000 * 10**6 - 1, 5004999, 5005000]
 
 
-def gen_cues(rng, unit):
+def gen_cues(rng, unit, short_ok):
+    """sorted non-overlapping cues. short_ok (no SAMI on the chain): a cue may be shorter than the unit, even inside one
+    unit (it floors to a zero-length cue that must be kept) - neighbours start in different units and, with MicroDVD,
+    no cue lies inside frame 0.  Otherwise every cue is at least one unit long."""
     n = rng.choice([1, 2, 2, 3, 4, 5])
     t = rng.choice([0, 0, 1, 999, rng.randrange(10**7), rng.randrange(10**9), rng.randrange(HI // 2)])
     cues = []
@@ -91,31 +122,158 @@ def gen_cues(rng, unit):
             g = rng.choice(GRID)
             if g >= t:
                 t = g
-        d = rng.choice([unit, unit + 1, 2 * unit - 1, 2 * unit, 999999, 10**6, 2500000, rng.randrange(unit, 10**7)])
-        d = max(d, unit)
-        s, e = t, t + d
+        if short_ok and rng.random() < 0.35:
+            d = rng.choice([0, 1, 999, 30000, 39999, unit - 1, rng.randrange(0, unit)])
+            if rng.random() < 0.5:
+                t = t // unit * unit + rng.choice([0, 0, 1, unit // 4])   # well inside one unit
+        else:
+            d = max(unit, rng.choice([unit, unit + 1, 2 * unit - 1, 2 * unit, 999999, 10**6, 2500000,
+                                      rng.randrange(unit, 10**7)]))
+        s = t
+        if cues:      # not before the previous end, and in a later unit than the previous start
+            s = max(s, cues[-1][1], (cues[-1][0] // unit + 1) * unit)
+        e = s + d
+        if unit == 40000 and e < 40000:
+            s, e = s + 40000, e + 40000          # frame 0 is the recorded finding (separate stream)
         if e > HI:
             break
         cues.append((s, e))
         t = e + (0 if rng.random() < 0.35 else rng.choice([1, 999, 1000, unit, 123456, rng.randrange(1, 10**7)]))
     if not cues:
-        cues = [(0, max(unit, 1000))]
+        cues = [(40000, 40000 + max(unit, 1000))]
     return cues
 
 
+def related_cues(rng, first, unit):
+    """cues of a further language built around the first language's times: shared starts / ends, a title cue that starts
+    before the first language and ends exactly where its first cue begins, cues in the gaps"""
+    pts = sorted({t for c in first for t in c})
+    out = []
+    t0 = pts[0]
+    if t0 >= 2 * unit and rng.random() < 0.6:
+        a = rng.randrange(0, t0 - unit)
+        out.append((a, t0 if rng.random() < 0.7 else rng.randrange(a + unit, t0 + 1)))
+    for (s, e) in first:
+        r = rng.random()
+        if r < 0.4:
+            out.append((s, e))
+        elif r < 0.6 and e - s >= 2 * unit:
+            m = rng.randrange(s + unit, e - unit + 1)
+            out.append((s, m))
+            if rng.random() < 0.5:
+                out.append((m, e))
+        elif r < 0.75:
+            out.append((s, s + unit))
+    res = []
+    for (s, e) in out:
+        if res and s < res[-1][1]:
+            continue
+        if e - s >= unit and e <= HI:
+            res.append((s, e))
+    return res or [(first[0][0], first[0][0] + unit)]
+
+
+STYLES = [{"italics": True}, {"bold": True}, {"underline": True}, {"color": "yellow"}, {"font-family": "serif"},
+          {"font-size": "12px"}, {"italics": True, "color": "red"}]
+BLANKS = [" ", "\xa0", "  ", "\xa0 "]
+
+
+def lines_spec(lines):
+    spec = []
+    for k, ln in enumerate(lines):
+        if k:
+            spec.append(["b"])
+        spec.append(["t", ln])
+    return spec
+
+
+def gen_nodes(rng, no_pipe, counter):
+    """node list of one caption: visible text lines (gen_text) separated by breaks; between two lines possibly EMPTY
+    lines (consecutive breaks) or lines holding only a blank / U+00A0 text node; balanced STYLE node pairs (rendering:
+    italics / bold / underline, and non-rendering: colour / font) at arbitrary positions, also between two breaks"""
+    lines = gen_text(rng, no_pipe, counter)
+    spec = []
+    for k, ln in enumerate(lines):
+        if k:
+            spec.append(["b"])
+            while rng.random() < 0.3:
+                if rng.random() < 0.5:
+                    spec.append(["t", rng.choice(BLANKS)])
+                    counter["blank_only_text_nodes"] = counter.get("blank_only_text_nodes", 0) + 1
+                else:
+                    counter["empty_lines_inside_a_caption"] = counter.get("empty_lines_inside_a_caption", 0) + 1
+                spec.append(["b"])
+        spec.append(["t", ln])
+    for _ in range(rng.choice([0, 0, 0, 1, 1, 2])):
+        i = rng.randrange(0, len(spec) + 1)
+        j = rng.randrange(i, len(spec) + 1)
+        # keep pairs properly nested / sequential: do not cut through an existing pair
+        depth = 0
+        ok = True
+        for x in spec[i:j]:
+            if x[0] == "s":
+                depth += 1 if x[1] else -1
+                if depth < 0:
+                    ok = False
+        if not ok or depth != 0:
+            continue
+        st = rng.choice(STYLES)
+        spec = spec[:i] + [["s", True, st]] + spec[i:j] + [["s", False, st]] + spec[j:]
+        counter["style_node_pairs"] = counter.get("style_node_pairs", 0) + 1
+        if not any(k in st for k in ("italics", "bold", "underline")):
+            counter["style_node_pairs_rendering_no_tag"] = counter.get("style_node_pairs_rendering_no_tag", 0) + 1
+    return spec
+
+
+def plain_lines(spec):
+    """the text lines if the caption is just lines separated by single breaks, else None"""
+    out = []
+    expect_text = True
+    for x in spec:
+        if expect_text and x[0] == "t" and norm_line(x[1]):
+            out.append(x[1])
+        elif not expect_text and x[0] == "b":
+            pass
+        else:
+            return None
+        expect_text = not expect_text
+    return out if not expect_text else None
+
+
 def build(langs):
+    """langs: per language (cues, per cue either a list of text lines or a node spec)"""
     d = {}
     for li, (cues, texts) in enumerate(langs):
         caps = []
-        for (s, e), lines in zip(cues, texts):
+        for (s, e), spec in zip(cues, texts):
+            if spec and isinstance(spec[0], str):
+                spec = lines_spec(spec)
             nodes = []
-            for k, ln in enumerate(lines):
-                if k:
+            for x in spec:
+                if x[0] == "t":
+                    nodes.append(CaptionNode.create_text(x[1]))
+                elif x[0] == "b":
                     nodes.append(CaptionNode.create_break())
-                nodes.append(CaptionNode.create_text(ln))
+                else:
+                    nodes.append(CaptionNode.create_style(bool(x[1]), dict(x[2])))
             caps.append(Caption(s, e, nodes))
         d[LANGS[li]] = CaptionList(caps)
     return CaptionSet(d)
+
+
+def spec_lines(spec):
+    """visible text of a node spec: per line the text contents, whitespace-normalised, empty lines dropped"""
+    if spec and isinstance(spec[0], str):
+        spec = lines_spec(spec)
+    lines, cur = [], []
+    for x in spec:
+        if x[0] == "b":
+            lines.append("".join(cur))
+            cur = []
+        elif x[0] == "t":
+            cur.append(x[1])
+    lines.append("".join(cur))
+    return [l for l in (norm_line(l) for l in lines) if l]
 
 
 def run_chain(chain, cs):
@@ -147,15 +305,29 @@ def run(ctx):
             jobs.append([a, b])
     for _ in range(ctx.n(700, 10000)):
         jobs.append([rng.randrange(5) for _ in range(rng.randint(3, 6))])
+    for x in range(5):                # order-sensitive 3-hop chains around the WebVTT / SRT pair
+        for tail in ([1, 0], [0, 1]):
+            for _ in range(ctx.n(8, 120)):
+                jobs.append([x] + tail)
+    n_multi = ctx.n(160, 3000)       # chains that stay within DFXP / SAMI, always with 2-3 interleaved languages
+    for _ in range(n_multi):
+        jobs.append([rng.choice([2, 3]) for _ in range(rng.randint(1, 5))])
+    multi_from = len(jobs) - n_multi
     reqs_t, reqs_e, work = [], [], []
-    for chain in jobs:
+    for jn, chain in enumerate(jobs):
         unit = 40000 if 4 in chain else 1000
-        multi = all(f in (2, 3) for f in chain) and rng.random() < 0.5
+        multi = all(f in (2, 3) for f in chain) and (rng.random() < 0.5 or jn >= multi_from)
         nl = rng.choice([2, 3]) if multi else 1
         langs = []
-        for _ in range(nl):
-            cues = gen_cues(rng, unit)
-            langs.append((cues, [gen_text(rng) for _ in cues]))
+        for k in range(nl):
+            cues = gen_cues(rng, unit, 3 not in chain)
+            if k and rng.random() < 0.6:
+                cues = related_cues(rng, langs[0][0], unit)
+            langs.append((cues, [gen_nodes(rng, 4 in chain, dist) for _ in cues]))
+            if any(e - s0 < unit for (s0, e) in cues):
+                dist["sets_with_a_cue_shorter_than_the_unit"] = dist.get("sets_with_a_cue_shorter_than_the_unit", 0) + 1
+            if any(s0 // unit == e // unit for (s0, e) in cues):
+                dist["sets_with_a_cue_inside_one_unit"] = dist.get("sets_with_a_cue_inside_one_unit", 0) + 1
         cs = build(langs)
         t1, cs1 = run_chain(chain, cs)
         t2, cs2 = run_chain(chain, cs1) if cs1 is not None else ([], None)
@@ -212,7 +384,9 @@ def run(ctx):
     dist.setdefault("hops_with_other_precision_than_model", 0)
     stream_short(ctx, res)
     # the string-level MicroDVD writer model (request 803) against the real writer, on the generated single-language sets
-    mw = [(langs[0][0], langs[0][1]) for (chain, langs, li, cues, texts, t1, t2) in work if len(langs) == 1 and 4 in chain][:400]
+    mw = [(langs[0][0], [plain_lines(sp) for sp in langs[0][1]]) for (chain, langs, li, cues, texts, t1, t2) in work
+          if len(langs) == 1 and 4 in chain and all(plain_lines(sp) is not None for sp in langs[0][1])
+          and all(l == l.strip() for sp in langs[0][1] for l in plain_lines(sp))][:400]
     docs = oracle_batch([(803, [[c[0], c[1], tx] for c, tx in zip(cu, txs)]) for (cu, txs) in mw]) if mw else []
     ndiff = 0
     for (cu, txs), d in zip(mw, docs):
@@ -224,12 +398,20 @@ def run(ctx):
     dist["chain_length_histogram"] = lens
     dist["pairs"] = len(pairs)
     dist["sets_per_pair"] = per_pair
-    res["rule"] = ("all 25 ordered format pairs x %d caption sets and sampled chains of length 3-6, two passes; sets of "
-                   "1-5 sorted non-overlapping cues (1-3 languages when the chain stays within DFXP/SAMI) with "
-                   "durations >= the chain's coarsest unit (1 ms, 40 ms with MicroDVD) drawn from {unit, unit+1, "
-                   "2unit-1, ...}, touching cues, starts on ms / frame boundaries +-1 (e.g. 8039999, 8040000), below "
-                   "23 h; texts of 1-3 lines of plain words. Non-trivial: every distinct (chain, cue list) in the "
-                   "domain." % per_pair)
+    res["rule"] = ("all 25 ordered format pairs x %d caption sets, the ten 3-hop chains X->vtt->srt / X->srt->vtt, sampled "
+                   "chains of length 3-6 and chains within DFXP/SAMI with 2-3 interleaved languages, two passes; sets of "
+                   "1-5 sorted non-overlapping cues; with SAMI on the chain every cue is at least one unit long (1 ms, "
+                   "40 ms with MicroDVD), otherwise cues may be shorter than the unit or lie inside one unit (e.g. "
+                   "{100}{100}: kept as a zero-length cue) while neighbours start in different units and no cue lies "
+                   "inside MicroDVD frame 0; starts on ms / frame boundaries +-1, below 23 h. Captions are node lists: "
+                   "1-3 visible text lines mixing plain words with adversarial atoms (literal entity spellings &lt; &gt; "
+                   "&amp; &nbsp; &#60; &amp;lt;, bare & < >, quotes, '-->', markup look-alikes, digits-only lines, braces, "
+                   "timing-line look-alikes, leading/trailing/multiple blanks, non-ASCII); between two lines possibly "
+                   "EMPTY lines (consecutive breaks) or lines holding only a blank / U+00A0 text node; balanced STYLE node "
+                   "pairs, rendering (i/b/u) and non-rendering (colour, font), at arbitrary positions incl. between two "
+                   "breaks; '|' is replaced (counted) exactly when the chain has a MicroDVD hop. Compared: visible text "
+                   "per line, whitespace-normalised, empty lines dropped. Non-trivial: every distinct (chain, cue list) "
+                   "in the domain." % per_pair)
     res["clauses"] = {
         "theorem": ["projection algebra: pi_F idempotent, two hops = coarser resolution (order irrelevant), every chain = "
                     "closed form (coarsest unit, SAMI 4 s tail), chain twice = once",
@@ -238,8 +420,11 @@ def run(ctx):
                     "domain; a chain of model hops is the closed form and satisfies the oracle",
                     "string level, MicroDVD: reader model o writer model (whole documents incl. text lines) = frames "
                     "floored, text unchanged (C08_mdvd_roundtrip_string)"],
-        "correspondence_only": ["text survives every hop (whitespace-normalised lines; texts restricted to plain words: "
-                                "no consecutive breaks, no entity-looking text, no wrapped text, no '|')",
+        "correspondence_only": ["several languages inside one DFXP / SAMI document do not disturb each other (dedicated "
+                                "stream with interleaved languages; the set-level theorem converts each language on its own)",
+                                "text survives every hop and the second pass (whitespace-normalised lines, adversarial "
+                                "texts; the projection on text is the identity up to whitespace; only '|' is excluded, "
+                                "for MicroDVD hops)",
                                 "document level of every real writer / reader pair (the model hop is at token / cue-list "
                                 "level)", "several languages through DFXP / SAMI"]}
     res["samples"] = [{"chain": [FMT[f] for f in work[0][0]], "cues": work[0][3], "text": work[0][4]}]
@@ -317,6 +502,7 @@ def final_times(trace, li, n):
 
 
 def text_mismatch(trace, li, texts):
+    texts = [spec_lines(sp) for sp in texts]
     for k, o in enumerate(trace):
         if isinstance(o, Err):
             return (k, "an exception")
